@@ -47,6 +47,12 @@ CHECKS.update({
                 note='version strings are enumerated, not symbolic; performSelfUpdate call site, parseChecksum, env switches, file/HTTP code outside. Found and fixed: stoi overflow escaping parseSemVer (21f8240).',
                 ref='DESIGN.md §2 C20', tech=TECH_SAT),
 })
+CHECKS.update({
+    'C14': dict(text='Real Pratt parser on short token streams: for binary-operator pairs, prefix/postfix/binary mixes, parenthesised groups and assignment chains the returned tree '
+                     'has the shape docs/grammar.md dictates and nodes carry their defining token\'s (symbolic) position; annotation lists in front of class members are accepted in every documented order.',
+                note='operator kinds are enumerated per query (a symbolic kind gives no verdict), token positions are symbolic; statements/declarations/whole classes are outside (parse() on `class A { }` gives no verdict in 300 s). Found and fixed: @quantum on class members (fcaace1).',
+                ref='DESIGN.md §2 C14', tech=TECH_SAT),
+})
 NA = {}
 def main():
     props = [json.loads(l) for l in open(os.path.join(here, 'properties.jsonl'))]
